@@ -85,7 +85,7 @@ def gen_scenario(ctx, k):
         b = cfgA['boards'][0]
         b['uid'] = bytes([b['uid'][0] | 0x10]) + b['uid'][1:]
     if not cfgA['trains']:
-        cfgA['trains'].append({'id': 'xt', 'addr': (0x3E, 0x21), 'steps': 28, 'calibration': None, 'peripherals': None})
+        cfgA['trains'].append({'id': 'xt', 'addr': cfggen.free_dcc(cfgA, (0x3E, 0x21)), 'steps': 28, 'calibration': None, 'peripherals': None})
     dA = cfggen.write_config(cfgA, cfg_dir(f'c16_{k}'))
     nodesA = cfggen.assign_tree(rng, cfgA, absent_prob=0.1)
     # an invalid config: train with unsupported speed steps
